@@ -163,6 +163,15 @@ func getSurnames(document *gedcom.Document, visibility LivingVisibility) *gedcom
 	return surnames
 }
 
+// forgetSurnames makes the next getSurnames work the surnames out again. The
+// document may have been edited since they were collected.
+func forgetSurnames() {
+	surnamesMutex.Lock()
+	defer surnamesMutex.Unlock()
+
+	surnames = nil
+}
+
 // isVisible is false for living individuals unless they are shown.
 func isVisible(individual *gedcom.IndividualNode, visibility LivingVisibility) bool {
 	if individual.IsLiving() {
